@@ -203,7 +203,7 @@ impl ReceiverLink {
 //@@ selfmut
 //@@ param writer : &mut ChanSender<LinkFrame>
 //@@ subst `let handle = self .output_handle .clone() .ok_or(FlowError::IllegalState)? .into();` => `let handle: Handle = output_to_handle(self.output_handle.clone().ok_or(FlowError::IllegalState)?);` rule=R16
-//@@ subst `|_v0|` => `|_v0: ChanSendError|` rule=R5
+//@@ subst `|_v0|` => `|_v0: ChanSendError|` rule=optional-R5
 //@@ spec
     ensures
         old(self).output_handle is None ==> r is Err && final(self).flow_state == old(self).flow_state && final(writer).sent@ == old(writer).sent@,   // [C09.flow.needs-handle] a link without an output handle (detached) sends no flow and records no credit
@@ -282,7 +282,7 @@ impl ReceiverDisposer {
 //@@ subst `self.flow_state.lock.write()` => `(&mut self.flow_state.lock)` rule=optional-R4
 //@@ subst `self.flow_state.lock.read()` => `(&self.flow_state.lock)` rule=optional-R4
 //@@ subst `let handle: Handle = self .output_handle .clone() .ok_or(DispositionError::IllegalState)? .into();` => `let handle: Handle = output_to_handle(self.output_handle.clone().ok_or(DispositionError::IllegalState)?);` rule=R16
-//@@ subst `|_v0|` => `|_v0: ChanSendError|` rule=R5
+//@@ subst `|_v0|` => `|_v0: ChanSendError|` rule=optional-R5
 //@@ spec
     ensures
         ({
